@@ -895,6 +895,21 @@ func (env *SpecEnv) call(e *Expr) (SV, error) {
 			return SV{t: tIte(tLe(a.t, b.t), a.t, b.t), typ: a.typ}, nil
 		}
 		return SV{t: tIte(tGe(a.t, b.t), a.t, b.t), typ: a.typ}, nil
+	case "alive":
+		// alive(p): the pointer-like value p denotes nil or an object that exists in the current state (is not
+		// "yet to be allocated"): true of every pointer a Go program can hold; needed explicitly for pointers that
+		// are only reachable under a quantifier (map / slice contents), so that later allocations cannot alias them
+		if err := need(1); err != nil {
+			return SV{}, err
+		}
+		x, err := argv(0)
+		if err != nil {
+			return SV{}, err
+		}
+		if x.t.Sort != sortInt {
+			return SV{}, fmt.Errorf("alive: pointer-like argument expected")
+		}
+		return SV{t: tLe(x.t, env.st.alloc), typ: boolT}, nil
 	case "in_range":
 		if err := need(2); err != nil {
 			return SV{}, err
